@@ -217,17 +217,27 @@ func (q *Queue[T]) unsafeWaitWhileEmpty(ctx context.Context) error {
 	return nil
 }
 
+// waitForNew blocks until an item is added after the current back of
+// the queue, the queue is closed or the context is canceled.
 func (q *Queue[T]) waitForNew(ctx context.Context) error {
 	q.mu.Lock()
 	defer q.mu.Unlock()
 
+	return q.unsafeWaitForNew(ctx, q.back)
+}
+
+// unsafeWaitForNew blocks until an entry has been linked after the
+// cursor, the queue is closed or the context is canceled. The caller
+// must hold the lock (which is released while waiting), so that no
+// Add can slip in between the caller's look at the cursor and the
+// wait.
+func (q *Queue[T]) unsafeWaitForNew(ctx context.Context, cursor *entry[T]) error {
 	// when the function returns wake all other waiters.
 	ctx, cancel := context.WithCancel(ctx)
 	go func() { <-ctx.Done(); q.mu.Lock(); defer q.mu.Unlock(); q.nupdates.Broadcast() }()
 	defer cancel()
 
-	head := q.back
-	for head == q.back && q.back.link != q.front {
+	for cursor.link == nil {
 		if q.closed {
 			return ErrQueueClosed
 		}
@@ -354,39 +364,28 @@ func (q *Queue[T]) Distributor() Distributor[T] {
 func (q *Queue[T]) Producer() fun.Producer[T] {
 	var next *entry[T]
 	return func(ctx context.Context) (o T, _ error) {
+		q.mu.Lock()
+		defer q.mu.Unlock()
+
 		if next == nil {
-			q.mu.Lock()
 			next = q.front
-			q.mu.Unlock()
 		}
 
-		q.mu.Lock()
 		if next.link == q.front {
-			q.mu.Unlock()
 			return o, io.EOF
 		}
 
-		if next.link != nil {
-			next = next.link
-			q.mu.Unlock()
-		} else if next.link == nil {
+		if next.link == nil {
 			if q.closed {
-				q.mu.Unlock()
 				return o, io.EOF
 			}
 
-			q.mu.Unlock()
-			if err := q.waitForNew(ctx); err != nil {
+			if err := q.unsafeWaitForNew(ctx, next); err != nil {
 				return o, err
 			}
-
-			q.mu.Lock()
-			if next.link != q.front {
-				next = next.link
-			}
-			q.mu.Unlock()
 		}
 
+		next = next.link
 		return next.item, nil
 	}
 }
